@@ -28,6 +28,16 @@ pub mod hpack {
             .map_err(|e| format!("{:?}", e))
     }
 
+    /// `hpack::decoder::decode_int`: (value, octets left) or the error
+    pub fn decode_int(src: &[u8], prefix_size: u8) -> Result<(usize, usize), String> {
+        crate::hpack::verif_decode_int(src, prefix_size).map_err(|e| format!("{:?}", e))
+    }
+
+    /// `hpack::encoder::encode_int`
+    pub fn encode_int(value: usize, prefix_bits: usize, first_byte: u8) -> Vec<u8> {
+        crate::hpack::verif_encode_int(value, prefix_bits, first_byte)
+    }
+
     /// A `hpack::Decoder` plus the undecoded tail the framing layer carries
     /// from one header-block fragment to the next.
     pub struct Dec {
@@ -73,6 +83,11 @@ pub mod hpack {
         /// `{:?}` of the decoder (table entries, size, limits).
         pub fn state(&self) -> String {
             format!("{:?}", self.inner)
+        }
+
+        /// (entries newest first, size, max_size, last_max_update)
+        pub fn table(&self) -> (Vec<(Vec<u8>, Vec<u8>)>, usize, usize, usize) {
+            self.inner.verif_table()
         }
     }
 
